@@ -118,10 +118,46 @@ def _stratum(ctx):
     ctx.extra["stratum_size"] = len(trees) if ctx.shard == 0 else 0
 
 
+def _huge(ctx):
+    """Unions of hundreds to thousands of ranges (pin lists, long exclusion chains): built through the operators
+    and through the parser, rendered, parsed back.  Sizes past the interpreter's recursion limit on purpose."""
+    from dep_logic.specifiers import parse_version_specifier
+
+    rnd = ctx.rnd
+    sizes = (100, 1100) if ctx.tier == "quick" else (100, 400, 1100, 1500, 3000)
+    for n in sizes:
+        for kind in ("pins", "exclusions", "ranges"):
+            ctx.cases += 1
+            ctx.current_case = {"kind": "huge", "n": n, "shape": kind}
+
+            def go():
+                if kind == "pins":
+                    s = parse_version_specifier("||".join(f"=={2 * k}" for k in range(n)))
+                elif kind == "exclusions":
+                    s = parse_version_specifier(",".join(f"!={k}.{k % 7}" for k in range(n)))
+                else:
+                    parts = [parse_version_specifier(f">={3 * k},<{3 * k + 1}.{k % 5}") for k in range(n)]
+                    rnd.shuffle(parts)
+                    s = parts[0]
+                    for p_ in parts[1:]:
+                        s = s | p_
+                specmon.roundtrip_check(ctx, s, PROP, origin=f"{kind} x {n}")
+                ctx.shape(f"huge:{kind}")
+                ctx.nontrivial("huge", kind, n)
+
+            ctx.guarded(60.0 if ctx.tier == "quick" else 240.0, go)
+    ctx.current_case = None
+
+
 def run(ctx):
     _stratum(ctx)
+    if ctx.shard == 0:
+        _huge(ctx)
     run_trees(ctx, _case(ctx), scale=0.6)
 
 
 def replay(ctx, case):
+    if isinstance(case, dict) and case.get("kind") == "huge":
+        _huge(ctx)
+        return
     _case(ctx)(case["tree"], None)
